@@ -10,6 +10,7 @@ package orefafs
 //@   inv[C02] self.vfs != nil && self.at >= 0
 //@   guarded_by mu: nd at dirIndex dirEntries dirNames
 //@   immutable vfs name openMode
+//@   inv[C02,C14] self.dirIndex >= 0
 
 // ---- lock discipline (C08) -----------------------------------------------------------------------
 //@ type node
@@ -152,8 +153,28 @@ package orefafs
 
 //@ func (*node).dirNames
 //@   requires[C08] held(nd.mu)
+//@   modifies nothing
 //@ func (*node).dirEntries
 //@   requires[C08] held(nd.mu)
+//@   modifies nothing
+
+// Directory batches as os.File (same contracts as MemFile).
+//@ func (*OrefaFile).ReadDir
+//@   nilrecv
+//@   let dirOK := f != nil && f.name != "" && f.nd != nil && f.nd.mode&fs.ModeDir != 0
+//@   ensures[C02,C14] f == nil ==> r0 == nil && r1 == fs.ErrInvalid
+//@   ensures[C02,C14] dirOK && old(f.dirEntries) != nil ==> f.dirEntries == old(f.dirEntries)
+//@   ensures[C02,C14] dirOK && n <= 0 ==> r1 == nil && f.dirIndex == len(f.dirEntries) && len(r0) == len(f.dirEntries) - min(old(f.dirEntries) != nil ? old(f.dirIndex) : 0, len(f.dirEntries))
+//@   ensures[C02,C14] dirOK && n > 0 && old(f.dirEntries) != nil && old(f.dirIndex) >= len(f.dirEntries) ==> r0 == nil && r1 == io.EOF && f.dirIndex == old(f.dirIndex)
+//@   ensures[C02,C14] dirOK && n > 0 && old(f.dirEntries) != nil && old(f.dirIndex) < len(f.dirEntries) ==> r1 == nil && len(r0) == min(n, len(f.dirEntries) - old(f.dirIndex)) && f.dirIndex == old(f.dirIndex) + len(r0)
+//@ func (*OrefaFile).Readdirnames
+//@   nilrecv
+//@   let dirOK := f != nil && f.name != "" && f.nd != nil && f.nd.mode&fs.ModeDir != 0
+//@   ensures[C02,C14] f == nil ==> r0 == nil && r1 == fs.ErrInvalid
+//@   ensures[C02,C14] dirOK && old(f.dirNames) != nil ==> f.dirNames == old(f.dirNames)
+//@   ensures[C02,C14] dirOK && n <= 0 ==> r1 == nil && f.dirIndex == len(f.dirNames) && len(r0) == len(f.dirNames) - min(old(f.dirNames) != nil ? old(f.dirIndex) : 0, len(f.dirNames))
+//@   ensures[C02,C14] dirOK && n > 0 && old(f.dirNames) != nil && old(f.dirIndex) >= len(f.dirNames) ==> r0 == nil && r1 == io.EOF && f.dirIndex == old(f.dirIndex)
+//@   ensures[C02,C14] dirOK && n > 0 && old(f.dirNames) != nil && old(f.dirIndex) < len(f.dirNames) ==> r1 == nil && len(r0) == min(n, len(f.dirNames) - old(f.dirIndex)) && f.dirIndex == old(f.dirIndex) + len(r0)
 
 // removeAll runs under the index write lock taken by RemoveAll.
 //@ func (*OrefaFS).removeAll
